@@ -1,8 +1,637 @@
 package main
 
-import "encoding/json"
+// C22 / C23 (spec/KeyOps.tla): cluster key operations on real quiet Serf nodes.
+//
+//	keyring   a node with a memberlist Keyring and a KeyringFile receives the real internal queries
+//	          _serf_install-key / _serf_use-key / _serf_remove-key (wire format, through NotifyMsg); the step
+//	          is complete when its reply packet shows up on the transport; after every step the file is loaded
+//	          through the agent's own loader (agent.Create with KeyringFile) and compared with the live ring.
+//	keyagg    KeyManager.ListKeys / InstallKey / UseKey / RemoveKey on the first node of a quiet cluster with
+//	          the wanted number of memberlist members; the internal query is read off the broadcast queue and
+//	          the per-node replies of the input are injected for its (LTime, ID).
+//	keytrunc  a node holding N keys answers a real _serf_list-keys query under a given
+//	          QueryResponseSizeLimit; the reply packet is captured on the transport.
 
-func keyCrashLine(last traceLine, idx, code int, input json.RawMessage) []byte { return nil }
-func runKeyring(inputs []json.RawMessage, tr *tracer) summary               { return summary{} }
-func runKeyAgg(inputs []json.RawMessage, tr *tracer) summary                { return summary{} }
-func runKeyTrunc(inputs []json.RawMessage, tr *tracer) summary              { return summary{} }
+import (
+	"bytes"
+	"encoding/base64"
+	"encoding/json"
+	"fmt"
+	"io"
+	"math/rand"
+	"os"
+	"path/filepath"
+	"regexp"
+	"sort"
+	"strconv"
+	"strings"
+	"sync"
+	"time"
+
+	"github.com/hashicorp/go-msgpack/v2/codec"
+	"github.com/hashicorp/memberlist"
+	"github.com/hashicorp/serf/cmd/serf/command/agent"
+	"github.com/hashicorp/serf/serf"
+
+	"verif/harness/internal/quiet"
+)
+
+const (
+	msgKeyRequest  = 7
+	msgKeyResponse = 8
+)
+
+type keyRequest struct{ Key []byte }
+type nodeKeyResponse struct {
+	Result     bool
+	Message    string
+	Keys       []string
+	PrimaryKey string
+}
+
+func mpack(t byte, v interface{}) []byte {
+	buf := bytes.NewBuffer(nil)
+	buf.WriteByte(t)
+	h := codec.MsgpackHandle{}
+	if err := codec.NewEncoder(buf, &h).Encode(v); err != nil {
+		panic(err)
+	}
+	return buf.Bytes()
+}
+
+func munpack(b []byte, v interface{}) error {
+	h := codec.MsgpackHandle{}
+	return codec.NewDecoder(bytes.NewReader(b), &h).Decode(v)
+}
+
+// encQuery: a serf query message as another node would send it.
+func encQuery(name string, lt uint64, id uint32, asker *quiet.Transport, payload []byte) []byte {
+	return quiet.Encode(quiet.TQuery, quiet.MsgQuery{LTime: lt, ID: id, Addr: []byte(asker.IP.To4()), Port: uint16(asker.Port),
+		SourceNode: asker.Name, Timeout: time.Minute, Name: name, Payload: payload})
+}
+
+// awaitReply polls the captured packets for the query response with the given id sent to the asker.
+// stop() may report that no reply will come (positive evidence, e.g. an error line in the node's log).
+func awaitReply(net *quiet.Net, asker *quiet.Transport, id uint32, stop func() bool) (raw []byte, resp quiet.MsgQueryResponse, ok bool) {
+	deadline := time.Now().Add(10 * time.Second)
+	for time.Now().Before(deadline) {
+		for _, p := range net.TakePackets() {
+			if p.ToAddr != asker.Addr() {
+				continue
+			}
+			for _, m := range quiet.UserMsgs(p.Buf) {
+				if len(m) > 0 && m[0] == quiet.TQueryResponse {
+					var r quiet.MsgQueryResponse
+					if quiet.Decode(m, &r) == nil && r.ID == id {
+						return m, r, true
+					}
+				}
+			}
+		}
+		if stop != nil && stop() {
+			// one more look: the reply may have been sent just before the evidence appeared
+			for _, p := range net.TakePackets() {
+				for _, m := range quiet.UserMsgs(p.Buf) {
+					if len(m) > 0 && m[0] == quiet.TQueryResponse && p.ToAddr == asker.Addr() {
+						var r quiet.MsgQueryResponse
+						if quiet.Decode(m, &r) == nil && r.ID == id {
+							return m, r, true
+						}
+					}
+				}
+			}
+			return nil, resp, false
+		}
+		time.Sleep(50 * time.Microsecond)
+	}
+	die("no reply and no evidence that none will come for query id %d within 10s", id)
+	return
+}
+
+// ---------------------------------------------------------------------------------------------- keyring (C22)
+
+type kopStep struct {
+	A  string `json:"a"`
+	Op string `json:"op"`
+	K  int    `json:"k"`
+}
+type keyringInput struct {
+	ID    int       `json:"id"`
+	Init  []int     `json:"init"`
+	Steps []kopStep `json:"steps"`
+}
+
+func keyBytes(k int) []byte {
+	n := map[int]int{1: 16, 2: 24, 3: 32, 4: 15, 5: 33}[k]
+	b := make([]byte, n)
+	for i := range b {
+		b[i] = byte(0x10*k + i)
+	}
+	return b
+}
+
+func keyID(b []byte) int {
+	for k := 1; k <= 5; k++ {
+		if bytes.Equal(b, keyBytes(k)) {
+			return k
+		}
+	}
+	return 99
+}
+
+type loadObs struct {
+	OK   bool  `json:"ok"`
+	Keys []int `json:"keys"`
+}
+type kringObs struct {
+	Ring []int   `json:"ring"`
+	Load loadObs `json:"load"`
+	Res  bool    `json:"res"`
+	FChg bool    `json:"fchg"`
+}
+
+// loadKeyring is the next start of the agent: agent.Create with KeyringFile runs the agent's loader and leaves
+// the keyring in the serf configuration.
+func loadKeyring(path string) (lo loadObs, ring *memberlist.Keyring) {
+	lo.Keys = []int{}
+	sc := serf.DefaultConfig()
+	ac := agent.DefaultConfig()
+	ac.KeyringFile = path
+	if _, err := agent.Create(ac, sc, io.Discard); err != nil {
+		return lo, nil
+	}
+	ring = sc.MemberlistConfig.Keyring
+	if ring == nil {
+		return lo, nil
+	}
+	lo.OK = true
+	for _, k := range ring.GetKeys() {
+		lo.Keys = append(lo.Keys, keyID(k))
+	}
+	return lo, ring
+}
+
+func ringIDs(r *memberlist.Keyring) []int {
+	out := []int{}
+	for _, k := range r.GetKeys() {
+		out = append(out, keyID(k))
+	}
+	return out
+}
+
+func runKeyring(inputs []json.RawMessage, tr *tracer) summary {
+	sum := summary{}
+	dir := filepath.Join(*fScratch, "keyring")
+	os.MkdirAll(dir, 0o755)
+	for idx := *fSkip; idx < len(inputs); idx++ {
+		var in keyringInput
+		if err := json.Unmarshal(inputs[idx], &in); err != nil {
+			die("%v", err)
+		}
+		progress(*fOut, idx)
+		path := filepath.Join(dir, fmt.Sprintf("ring-%d.json", in.ID))
+		// the operator's initial keyring file, loaded by the agent at start
+		var enc []string
+		for _, k := range in.Init {
+			enc = append(enc, base64.StdEncoding.EncodeToString(keyBytes(k)))
+		}
+		fb, _ := json.MarshalIndent(enc, "", "  ")
+		if err := os.WriteFile(path, fb, 0o600); err != nil {
+			die("%v", err)
+		}
+		lo, ring := loadKeyring(path)
+		if !lo.OK {
+			die("initial keyring file does not load")
+		}
+		net := quiet.NewNet()
+		net.Cut = func(from, to string) bool { return true }
+		nd, err := quiet.NewNode(net, "ring-node", nil, func(c *serf.Config) {
+			c.KeyringFile = path
+			c.MemberlistConfig.Keyring = ring
+			c.MemberlistConfig.GossipVerifyIncoming = false
+		})
+		if err != nil {
+			die("create: %v", err)
+		}
+		asker := net.NewTransport("asker")
+		tr.reset(in.ID, map[string]interface{}{"kind": "keyring", "init": in.Init})
+		tr.step(map[string]interface{}{"a": "kinit"}, kringObs{Ring: ringIDs(ring), Load: lo, Res: true})
+		for si, st := range in.Steps {
+			before, _ := os.ReadFile(path)
+			res := false
+			if st.K == 7 {
+				km := nd.Serf.KeyManager()
+				var err error
+				switch st.Op {
+				case "install":
+					_, err = km.InstallKey("not base64 %%%")
+				case "use":
+					_, err = km.UseKey("not base64 %%%")
+				case "remove":
+					_, err = km.RemoveKey("not base64 %%%")
+				}
+				res = err == nil
+			} else {
+				var payload []byte
+				if st.K == 6 {
+					payload = []byte{msgKeyRequest, 0xc1, 0xff, 0x00}
+				} else {
+					payload = mpack(msgKeyRequest, keyRequest{Key: keyBytes(st.K)})
+				}
+				id := uint32(100000 + si)
+				nd.Del.NotifyMsg(encQuery("_serf_"+st.Op+"-key", uint64(si+1), id, asker, payload))
+				_, r, _ := awaitReply(net, asker, id, nil)
+				var kr nodeKeyResponse
+				if len(r.Payload) < 1 || r.Payload[0] != msgKeyResponse || munpack(r.Payload[1:], &kr) != nil {
+					die("undecodable key response %v", r.Payload)
+				}
+				res = kr.Result
+			}
+			after, _ := os.ReadFile(path)
+			lo, _ := loadKeyring(path)
+			tr.step(st, kringObs{Ring: ringIDs(ring), Load: lo, Res: res, FChg: !bytes.Equal(before, after)})
+			sum["steps"]++
+			nd.Drain()
+		}
+		_ = nd.Serf.Shutdown()
+		os.Remove(path)
+		tr.flush()
+		sum["schedules"]++
+	}
+	return sum
+}
+
+// ---------------------------------------------------------------------------------------------- keyagg (C23)
+
+type aggReply struct {
+	Kind int   `json:"kind"`
+	Keys []int `json:"keys"`
+	PK   int   `json:"pk"`
+}
+type aggInput struct {
+	ID int        `json:"id"`
+	A  string     `json:"a"`
+	Op string     `json:"op"`
+	NN int        `json:"nn"`
+	RS []aggReply `json:"rs"`
+}
+type aggObs struct {
+	NN   int     `json:"nn"`
+	NR   int     `json:"nr"`
+	NE   int     `json:"ne"`
+	Err  bool    `json:"err"`
+	NMsg int     `json:"nmsg"`
+	Keys [][]int `json:"keys"`
+	PKs  [][]int `json:"pks"`
+	Late bool    `json:"late"`
+}
+
+func aggKeyName(k int) string {
+	if k == 0 {
+		return ""
+	}
+	return "key-" + strconv.Itoa(k)
+}
+func aggKeyID(s string) int {
+	if s == "" {
+		return 0
+	}
+	if strings.HasPrefix(s, "key-") {
+		if n, err := strconv.Atoi(s[4:]); err == nil {
+			return n
+		}
+	}
+	return 99
+}
+
+type cluster struct {
+	net   *quiet.Net
+	a     *quiet.Node
+	extra []*quiet.Node
+}
+
+func mkCluster(k int, tag string) *cluster {
+	c := &cluster{net: quiet.NewNet()}
+	c.net.Capture = false
+	var err error
+	c.a, err = quiet.NewNode(c.net, "agg-"+tag, nil, func(sc *serf.Config) {
+		sc.MemberlistConfig.GossipInterval = 10 * time.Millisecond // DefaultQueryTimeout = GossipInterval * QueryTimeoutMult * ceil(log10(N+1))
+		sc.QueryTimeoutMult = 6
+	})
+	if err != nil {
+		die("create: %v", err)
+	}
+	for i := 1; i < k; i++ {
+		n, err := quiet.NewNode(c.net, fmt.Sprintf("peer-%s-%d", tag, i), nil)
+		if err != nil {
+			die("create: %v", err)
+		}
+		if _, err := n.Serf.Join([]string{c.a.Tr.Addr()}, true); err != nil {
+			die("join: %v", err)
+		}
+		c.extra = append(c.extra, n)
+	}
+	deadline := time.Now().Add(10 * time.Second)
+	for c.a.Serf.Memberlist().NumMembers() != k {
+		if time.Now().After(deadline) {
+			die("cluster of %d did not form (%d members)", k, c.a.Serf.Memberlist().NumMembers())
+		}
+		time.Sleep(time.Millisecond)
+	}
+	// from now on nothing is delivered: the first node hears only the harness
+	c.net.Cut = func(from, to string) bool { return true }
+	c.a.Drain()
+	return c
+}
+
+func (c *cluster) shutdown() {
+	_ = c.a.Serf.Shutdown()
+	for _, n := range c.extra {
+		_ = n.Serf.Shutdown()
+	}
+}
+
+func aggPayload(r aggReply) []byte {
+	switch r.Kind {
+	case 1, 2, 3:
+		kr := nodeKeyResponse{Result: r.Kind != 3, PrimaryKey: aggKeyName(r.PK)}
+		if r.Kind == 2 {
+			kr.Message = "note from the node"
+		}
+		if r.Kind == 3 {
+			kr.Message = "the node failed"
+		}
+		for _, k := range r.Keys {
+			kr.Keys = append(kr.Keys, aggKeyName(k))
+		}
+		return mpack(msgKeyResponse, kr)
+	case 4: // well-formed body behind a wrong type byte
+		return mpack(msgKeyRequest, nodeKeyResponse{Result: true})
+	case 5: // right type byte, body that does not decode
+		return []byte{msgKeyResponse, 0xc1, 0xff, 0x00, 0x13}
+	}
+	return []byte{}
+}
+
+func runAggOne(c *cluster, in aggInput) aggObs {
+	km := c.a.Serf.KeyManager()
+	type result struct {
+		r   *serf.KeyResponse
+		err error
+	}
+	done := make(chan result, 1)
+	valid := base64.StdEncoding.EncodeToString(keyBytes(1))
+	c.a.Drain()
+	go func() {
+		var r *serf.KeyResponse
+		var err error
+		switch in.Op {
+		case "list":
+			r, err = km.ListKeys()
+		case "install":
+			r, err = km.InstallKey(valid)
+		case "use":
+			r, err = km.UseKey(valid)
+		case "remove":
+			r, err = km.RemoveKey(valid)
+		default:
+			die("unknown key operation %q", in.Op)
+		}
+		done <- result{r, err}
+	}()
+	// the internal query appears in the broadcast queue
+	var lt uint64
+	var id uint32
+	found := false
+	deadline := time.Now().Add(10 * time.Second)
+	for !found {
+		for _, b := range c.a.Drain() {
+			s := quiet.Summarize(b)
+			if s.T == quiet.TQuery && strings.HasPrefix(s.Node, "_serf_") {
+				lt, id, found = s.LTime, s.ID, true
+			}
+		}
+		if !found {
+			if time.Now().After(deadline) {
+				die("the key query was not broadcast")
+			}
+			time.Sleep(20 * time.Microsecond)
+		}
+	}
+	var qr *serf.QueryResponse
+	_, open := c.a.Serf.VerifQFOpen(false)
+	for _, e := range open {
+		if e.LTime == lt {
+			qr = e.Resp
+		}
+	}
+	late := qr == nil
+	for i, r := range in.RS {
+		if qr != nil && qr.Finished() {
+			late = true
+		}
+		c.a.Del.NotifyMsg(quiet.Encode(quiet.TQueryResponse, quiet.MsgQueryResponse{LTime: lt, ID: id, From: fmt.Sprintf("member-%d", i+1), Payload: aggPayload(r)}))
+	}
+	// Finished() still false after the last injection: every reply arrived in time (a query that has
+	// returned early because everybody answered is still open until its timer fires)
+	if qr != nil && len(in.RS) > 0 && qr.Finished() {
+		late = true
+	}
+	var res result
+	select {
+	case res = <-done:
+	case <-time.After(20 * time.Second):
+		die("key operation did not return within 20s")
+	}
+	o := aggObs{NN: res.r.NumNodes, NR: res.r.NumResp, NE: res.r.NumErr, Err: res.err != nil, NMsg: len(res.r.Messages), Keys: [][]int{}, PKs: [][]int{}, Late: late}
+	for k, n := range res.r.Keys {
+		o.Keys = append(o.Keys, []int{aggKeyID(k), n})
+	}
+	for k, n := range res.r.PrimaryKeys {
+		o.PKs = append(o.PKs, []int{aggKeyID(k), n})
+	}
+	less := func(x [][]int) func(i, j int) bool { return func(i, j int) bool { return x[i][0] < x[j][0] } }
+	sort.Slice(o.Keys, less(o.Keys))
+	sort.Slice(o.PKs, less(o.PKs))
+	return o
+}
+
+func runKeyAgg(inputs []json.RawMessage, tr *tracer) summary {
+	sum := summary{}
+	ins := []aggInput{}
+	for idx := *fSkip; idx < len(inputs); idx++ {
+		var in aggInput
+		if err := json.Unmarshal(inputs[idx], &in); err != nil {
+			die("%v", err)
+		}
+		ins = append(ins, in)
+	}
+	progress(*fOut, *fSkip)
+	// independent inputs: a few workers, each with its own clusters (one per member count)
+	const workers = 6
+	obs := make([]aggObs, len(ins))
+	var wg sync.WaitGroup
+	for w := 0; w < workers; w++ {
+		wg.Add(1)
+		go func(w int) {
+			defer wg.Done()
+			cl := map[int]*cluster{}
+			for i := w; i < len(ins); i += workers {
+				in := ins[i]
+				c := cl[in.NN]
+				if c == nil {
+					c = mkCluster(in.NN, fmt.Sprintf("%d-%d", w, in.NN))
+					cl[in.NN] = c
+				}
+				o := runAggOne(c, in)
+				for try := 0; o.Late && try < 3; try++ { // overtaken by the query timeout: not an observation, run again
+					o = runAggOne(c, in)
+				}
+				obs[i] = o
+			}
+			for _, c := range cl {
+				c.shutdown()
+			}
+		}(w)
+	}
+	wg.Wait()
+	for i, in := range ins {
+		tr.reset(in.ID, map[string]interface{}{"kind": "agg"})
+		if obs[i].Late {
+			sum["late"]++
+			continue
+		}
+		tr.step(in, obs[i])
+		sum["evaluations"]++
+	}
+	return sum
+}
+
+// ---------------------------------------------------------------------------------------------- keytrunc (C23)
+
+type truncInput struct {
+	ID    int    `json:"id"`
+	A     string `json:"a"`
+	N     int    `json:"n"`
+	KC    int    `json:"kc"`
+	NL    int    `json:"nl"`
+	Limit int    `json:"limit"`
+}
+type truncObs struct {
+	Sent   bool `json:"sent"`
+	Size   int  `json:"size"`
+	NK     int  `json:"nk"`
+	Prefix bool `json:"prefix"`
+	MI     int  `json:"mi"`
+	MN     int  `json:"mn"`
+	Res    bool `json:"res"`
+}
+
+var truncRe = regexp.MustCompile(`showing first (\d+) of (\d+) keys`)
+
+func runKeyTrunc(inputs []json.RawMessage, tr *tracer) summary {
+	sum := summary{}
+	var nd *quiet.Node
+	var net *quiet.Net
+	var asker *quiet.Transport
+	var keys []string
+	curN, curKC, uses := -1, -1, 0
+	rng := rand.New(rand.NewSource(seed()))
+	idc := uint32(100000)
+	for idx := *fSkip; idx < len(inputs); idx++ {
+		var in truncInput
+		if err := json.Unmarshal(inputs[idx], &in); err != nil {
+			die("%v", err)
+		}
+		progress(*fOut, idx)
+		if in.N != curN || in.KC != curKC || uses > 300 {
+			if nd != nil {
+				_ = nd.Serf.Shutdown()
+			}
+			curN, curKC, uses = in.N, in.KC, 0
+			kb := map[int]int{24: 16, 32: 24, 44: 32}[in.KC]
+			if kb == 0 {
+				die("key characters %d", in.KC)
+			}
+			var ring *memberlist.Keyring
+			keys = nil
+			if in.N > 0 {
+				var raw [][]byte
+				for i := 0; i < in.N; i++ {
+					b := make([]byte, kb)
+					rng.Read(b)
+					b[0] = byte(i) // distinct
+					b[1] = byte(i >> 8)
+					raw = append(raw, b)
+					keys = append(keys, base64.StdEncoding.EncodeToString(b))
+				}
+				var err error
+				ring, err = memberlist.NewKeyring(raw, raw[0])
+				if err != nil {
+					die("keyring: %v", err)
+				}
+			}
+			net = quiet.NewNet()
+			net.Cut = func(from, to string) bool { return true }
+			name := "trunc-node-name-padding"[:in.NL]
+			var err error
+			nd, err = quiet.NewNode(net, name, nil, func(c *serf.Config) {
+				c.MemberlistConfig.Keyring = ring
+				c.MemberlistConfig.GossipVerifyIncoming = false
+			})
+			if err != nil {
+				die("create: %v", err)
+			}
+			asker = net.NewTransport("asker")
+		}
+		uses++
+		nd.Conf.QueryResponseSizeLimit = in.Limit
+		idc++
+		id := idc
+		mark := len(nd.LogBuf.String())
+		nd.Del.NotifyMsg(encQuery("_serf_list-keys", 5, id, asker, mpack(msgKeyRequest, keyRequest{})))
+		polls := 0
+		raw, r, ok := awaitReply(net, asker, id, func() bool {
+			// positive evidence that no reply will be sent: the handler's error line
+			if polls++; polls%20 != 0 {
+				return false
+			}
+			l := nd.LogBuf.String()[mark:]
+			return strings.Contains(l, "Failed to truncate response") || strings.Contains(l, "Failed to respond to key query")
+		})
+		o := truncObs{Sent: ok, MI: -1, MN: -1, Prefix: true}
+		if ok {
+			var kr nodeKeyResponse
+			if len(r.Payload) < 1 || r.Payload[0] != msgKeyResponse || munpack(r.Payload[1:], &kr) != nil {
+				die("undecodable key response")
+			}
+			o.Size, o.NK, o.Res = len(raw), len(kr.Keys), kr.Result
+			for i, k := range kr.Keys {
+				if i >= len(keys) || keys[i] != k {
+					o.Prefix = false
+				}
+			}
+			if m := truncRe.FindStringSubmatch(kr.Message); m != nil {
+				o.MI, _ = strconv.Atoi(m[1])
+				o.MN, _ = strconv.Atoi(m[2])
+			}
+			sum["replies"]++
+		} else {
+			sum["no_reply"]++
+		}
+		tr.reset(in.ID, map[string]interface{}{"kind": "trunc"})
+		tr.step(in, o)
+		nd.Drain()
+		sum["evaluations"]++
+	}
+	if nd != nil {
+		_ = nd.Serf.Shutdown()
+	}
+	return sum
+}
+
+// keyCrashLine: a crash of the code under test in a key mode is never a verdict of C22/C23 (a panic on a malformed
+// request belongs to property C09); the input is recorded as crashed and skipped.
+func keyCrashLine(last traceLine, idx, code int, input json.RawMessage) []byte {
+	return nil
+}
